@@ -406,6 +406,45 @@ def call_shortcut_rule(repo: Repo, rep: Report, rid: str) -> None:
               f"expected {bad[0][3] if bad else ''}: input that ends after the first field would be accepted and the other fields fabricated from defaults", fi.loc())
 
 
+def no_fabrication_rule(repo: Repo, rep: Report, rid: str) -> None:
+    rep.rule(rid, "bytes that came from the input are never extended: in the readers (types/*.py, bitbuffer.py) a value returned by <stream>.read() is not "
+                  "padded - no '+=' / '+' with a bytes constant, a repeated bytes constant or bytes(n), no ljust / rjust / zfill / extend on it: the padding "
+                  "would be decoded as data the input never held")
+    n = 0
+    for fi in sorted(repo.all_functions(), key=lambda f: f.key):
+        if not (fi.module.rel.startswith("types/") or fi.module.rel == "bitbuffer.py"):
+            continue
+        from_read = {t.id for st in ast.walk(fi.node) if isinstance(st, ast.Assign) and isinstance(st.value, ast.Call) and call_name(st.value) in ("read", "read1", "readinto", "recv")
+                     for t in st.targets if isinstance(t, ast.Name)}
+        from_read |= {st.target.id for st in ast.walk(fi.node) if isinstance(st, ast.NamedExpr) and isinstance(st.value, ast.Call) and call_name(st.value) == "read"}
+        if not from_read:
+            continue
+
+        def filler(e: ast.AST) -> bool:
+            if isinstance(e, ast.Constant) and isinstance(e.value, (bytes, bytearray)):
+                return True
+            if isinstance(e, ast.BinOp) and isinstance(e.op, ast.Mult):
+                return filler(e.left) or filler(e.right)
+            return isinstance(e, ast.Call) and call_name(e) in ("bytes", "bytearray") and bool(e.args) and not isinstance(e.args[0], ast.Name)
+
+        for v in sorted(from_read):
+            n += 1
+            bad = None
+            for x in ast.walk(fi.node):
+                if isinstance(x, ast.AugAssign) and isinstance(x.op, ast.Add) and isinstance(x.target, ast.Name) and x.target.id == v and filler(x.value):
+                    bad = x
+                elif isinstance(x, ast.BinOp) and isinstance(x.op, ast.Add) and ((isinstance(x.left, ast.Name) and x.left.id == v and filler(x.right)) or
+                                                                                  (isinstance(x.right, ast.Name) and x.right.id == v and filler(x.left))):
+                    bad = x
+                elif isinstance(x, ast.Call) and isinstance(x.func, ast.Attribute) and x.func.attr in ("ljust", "rjust", "zfill", "extend", "center") and \
+                        isinstance(x.func.value, ast.Name) and x.func.value.id == v:
+                    bad = x
+            rep.check(bad is None, rid, f"{fi.key}:{v} = read()", "the bytes read are used as they came",
+                      f"{fi.qualname} pads what it read from the stream ('{short(bad, 60) if bad is not None else ''}'): on an input that ends early the missing bytes are "
+                      "made up and decoded as values instead of raising EOFError", fi.loc(bad) if bad is not None else fi.loc())
+    rep.floor(rid, "values read from the stream in the readers", n, 8)
+
+
 def meta_call_rule(repo: Repo, rep: Report, rid: str) -> None:
     rep.rule(rid, "call syntax of every type: T(x) parses exactly when x is the only positional argument and is a stream or a buffer (a bytes object "
                   "of exactly the type's size given to a bytes type is adopted); every other call constructs the value from all its arguments "
@@ -539,6 +578,7 @@ def run(repo: Repo, rep: Report, tier: str) -> None:
 
     memo_rule(repo, rep, "C08.R11")
     meta_call_rule(repo, rep, "C08.R12")
+    no_fabrication_rule(repo, rep, "C08.R13")
 def residue_rule(repo: Repo, rep: Report, rid: str, cg: CallGraph, clo: set[str], roots: list[str]) -> None:
     """Shared-object attributes written in the closure must be reset before any read on entry (or not written at all)."""
     ea = EffectAnalysis(repo, cg)
